@@ -42,6 +42,14 @@ AnswerLiteral ==
     /\ st' = "done"
     /\ UNCHANGED <<cfg, cands, idx, stage, got, fails, asked>>
 
+\* [hosts] the name as typed is in the hosts table (the reading that consults the table before the
+\* search list is applied; see StubOps!PlanTypedFirst -- either reading is accepted)
+AnswerHostsAsTyped ==
+    /\ st = "start" /\ HostsAsTyped(cfg) # <<>>
+    /\ result' = [kind |-> "ok", groups |-> HostsAsTyped(cfg), errs |-> {}]
+    /\ st' = "done"
+    /\ UNCHANGED <<cfg, cands, idx, stage, got, fails, asked>>
+
 \* [ndots] [fqdn] [domain] the list of names to try
 BuildCandidates ==
     /\ st = "start" /\ ~IsLiteral(cfg)
@@ -110,6 +118,7 @@ GiveUp ==
 
 Next ==
     \/ AnswerLiteral
+    \/ AnswerHostsAsTyped
     \/ BuildCandidates
     \/ NextCandidate
     \/ AnswerLocally
@@ -129,6 +138,11 @@ Done == st = "done"
 \* the world as far as the questions revealed it; anything else must not matter
 Revealed == [tab |-> asked, dflt |-> "unasked"]
 Prescribed == Plan(cfg, Revealed, Strict)
+Accepted == Plans(cfg, Revealed)
+\* the machine's result carries the set of admissible error classes
+SameResult(p) == result.kind = p.result.kind /\ result.groups = p.result.groups /\ result.errs = p.result.errs
+\* (for Gen_Stub) the behaviours of the per-candidate reading
+PerCandidateReading == ~(st = "start" /\ st' = "done" /\ ~IsLiteral(cfg))
 
 TypeOK ==
     /\ st \in {"start", "pick", "work", "done"}
@@ -149,11 +163,8 @@ X01_NothingAfterSuccess == NothingAfterSuccess(cfg, asked) /\ (Done => OneCandid
 X01_OnlyStrategyTypes == OnlyStrategyTypes(cfg, asked)
 X01_FamilyOrder == Done => FamilyOrder(cfg, result)
 \* 1 + 2 + 3 together: exactly the prescribed questions, exactly the prescribed result
-X01_QuestionsAsPrescribed == Done => MatchesSteps(Questions(asked), Prescribed.steps)
-X01_ResultAsPrescribed ==
-    Done => /\ result.kind = Prescribed.result.kind
-            /\ result.groups = Prescribed.result.groups
-            /\ result.errs = Prescribed.result.errs
+X01_QuestionsAsPrescribed == Done => \E p \in Accepted : MatchesSteps(Questions(asked), p.steps)
+X01_ResultAsPrescribed == Done => \E p \in Accepted : MatchesSteps(Questions(asked), p.steps) /\ SameResult(p)
 \* 2. the error shown is a failure of the last candidate tried
 X01_ErrorOfLast ==
     (Done /\ result.kind = "err") =>
